@@ -26,6 +26,11 @@ func VerifDoubleAndAdd(q *SM2Point, scalar []byte) (*SM2Point, error) {
 	return scalarMult_Unsafe_DaA(q, scalar)
 }
 
+// VerifLadder runs the Montgomery-ladder multiplication that the library keeps for publications.
+func VerifLadder(q *SM2Point, scalar []byte) (*SM2Point, error) {
+	return scalarMult_Unsafe_Ladder(q, scalar)
+}
+
 // VerifPoint builds a point from an arbitrary projective representative.
 func VerifPoint(x, y, z *fiat.SM2Element) *SM2Point {
 	return &SM2Point{
